@@ -4,10 +4,10 @@ package main
 
 import (
 	"context"
-	"net"
 	"encoding/json"
 	"fmt"
 	"math/rand"
+	"net"
 	"os"
 	"path/filepath"
 	"reflect"
